@@ -395,6 +395,18 @@ def check(ctx):
             raise AnalysisError(f"{fac_c}.get_device: {e}")
         ctx.ob("R6", f"{fac_c}.get_device::first-match-by-key", ra is devs[0] and rb is devs[1] and rz is None,
                f"{fac_c}.get_device on devices keyed [A, B, A] returns {[getattr(x, 'attrs', {}).get('n') if x is not None else None for x in (ra, rb, rz)]} for A, B, Z - expected the first A, B, None", gd.loc)
+        # every key the library hands out is looked up as it is (the shipped keys are not all upper case: Waterfall, EconActive)
+        real_keys = [k_ for k_ in dict.fromkeys(list(DEV) + [repo.fold(c.consts["KEY_ECON_ACTIVE"], c.mod, c), "HEAT", "P1"]) if isinstance(k_, str)]
+        devs2 = [Obj(None, {"key": k_, "n": i_}) for i_, k_ in enumerate(real_keys)]
+        it3 = Interp(repo)
+        it3.attr_hook = lambda _i, b_, a_, me=me, devs2=devs2: devs2 if (b_ is me and a_ == "all_automation_devices") else NotImplemented
+        try:
+            back = [it3.call(gd, me, [d_.attrs["key"]]) for d_ in devs2]
+        except (PyRaise, Undecided) as e:
+            raise AnalysisError(f"{fac_c}.get_device: {e}")
+        wrong = [d_.attrs["key"] for d_, r_ in zip(devs2, back) if r_ is not next(x for x in devs2 if x.attrs["key"] == d_.attrs["key"])]
+        ctx.ob("R6", f"{fac_c}.get_device::every-listed-key-finds-its-device", not wrong,
+               f"{fac_c}.get_device does not return the device for the key(s) {wrong} it lists itself (keys as shipped: {real_keys})", gd.loc)
         ctx.ob("R6", f"{fac_c}.devices::keys-of-same-list", list(keys) == ["A", "B", "A"], f"{fac_c}.devices is {keys}, expected the keys of all_automation_devices in order", repo.method(fac_c, "devices").loc)
     ctx.note("NOT decided: that startswith-matching yields exactly the wired devices for label sets never shipped (e.g. a label that is a prefix of another device's label).")
 
